@@ -122,12 +122,39 @@ func c13EvalDirective(s *vh.Session, l *vh.Loaded, c dirCase) (string, string) {
 		if strings.TrimSpace(r.Err.Error()) == "" {
 			return "goverter failed with an empty diagnostic", "empty"
 		}
+		named := diagNames(r.Err.Error(), l.Raw[idx], c.Position == "global")
+		if named == "anonymous" && injectsText(c.Lines) {
+			// user text that ends up verbatim in the emitted file (struct name, raw code, package
+			// name, comment): the diagnostic shows the emitted source instead of a declaration
+			named = "anonymous-injected-text"
+		}
+		s.Label("dir:diag:" + named)
+		if named == "anonymous" {
+			return "the diagnostic does not name the offending declaration (converter " + c.Converter + ", its file, or the command line): " + vh.FirstLines(r.Err.Error(), 4), "anonymous-diagnostic"
+		}
 		return "", r.Stage + "-error"
 	}
 	if len(r.Files) == 0 {
 		return "goverter reported success but emitted nothing", "nofiles"
 	}
 	return "", "ok"
+}
+
+// diagNames classifies whether a diagnostic names the declaration it is about: the converter
+// (interface name), the file that declares it, or the command line for -g settings.
+func diagNames(msg string, rc config.RawConverter, global bool) string {
+	switch {
+	case rc.InterfaceName != "" && strings.Contains(msg, rc.InterfaceName):
+		return "names-converter"
+	case rc.FileName != "" && strings.Contains(msg, filepath.Base(rc.FileName)):
+		return "names-file"
+	case global && strings.Contains(msg, "command line"):
+		return "names-command-line"
+	}
+	if os.Getenv("VERIF_DEBUG") != "" {
+		fmt.Fprintf(os.Stderr, "ANON-DIAG conv=%q file=%q: %s\n", rc.InterfaceName, rc.FileName, msg)
+	}
+	return "anonymous"
 }
 
 var settingKeys = []string{
@@ -382,6 +409,30 @@ func genTypeCase(rt *rapid.T, s *vh.Session, allowUnsafe bool) (typeCase, map[st
 	return typeCase{Prog: g.Prog, Patterns: []string{"./p"}}, g.Labels
 }
 
+// injectsText reports whether one of the lines carries user text into the emitted file verbatim.
+func injectsText(lines []string) bool {
+	for _, ln := range lines {
+		f := strings.Fields(ln)
+		if len(f) == 0 {
+			continue
+		}
+		switch f[0] {
+		case "name", "output:raw", "output:package", "struct:comment", "output:file":
+			return true
+		}
+	}
+	return false
+}
+
+func rawByName(l *vh.Loaded, name string) config.RawConverter {
+	for _, rc := range l.Raw {
+		if rc.InterfaceName == name || "vars:"+filepath.Base(rc.FileName) == name {
+			return rc
+		}
+	}
+	return config.RawConverter{}
+}
+
 func c13EvalTypes(s *vh.Session, c typeCase) (string, bool) {
 	dir := s.Scratch()
 	if err := vh.WriteTree(dir, c.Prog.Files()); err != nil {
@@ -408,6 +459,11 @@ func c13EvalTypes(s *vh.Session, c typeCase) (string, bool) {
 			return "empty diagnostic on converter " + r.Name, true
 		case r.Err != nil:
 			s.Label("types:" + r.Stage + "-error")
+			named := diagNames(r.Err.Error(), rawByName(l, r.Name), false)
+			s.Label("types:diag:" + named)
+			if named == "anonymous" {
+				return fmt.Sprintf("the diagnostic for converter %s does not name it or its file: %s", r.Name, vh.FirstLines(r.Err.Error(), 4)), true
+			}
 		default:
 			s.Label("types:ok")
 		}
